@@ -160,18 +160,30 @@ def history_task(task):
             n = int(rng.integers(2, task.get("nmax", 8) + 1))
             D = int(rng.integers(1, 4))
             G = int(rng.choice([3, 5, 11, 21]))
+            big = task.get("big") and h < task["big"]
+            if big:
+                # trees with more than 256 clones / data points (sizes beyond one byte), few steps
+                n = int(rng.integers(290, 340))
+                D, G = int(rng.integers(1, 3)), int(rng.choice([3, 5]))
             kind = str(rng.choice(["moderate", "smooth", "binom", "flat", "twins", "scales"], p=[0.3, 0.2, 0.15, 0.05, 0.15, 0.15]))
             op = float(rng.choice([0.0, 0.2]))
             data = gen.make_data(rng, n, D, G, kind=kind, outlier_prior=op)
             by_idx = {dp.idx: dp for dp in data}
             compute_log_S.cache_clear()
             _convolve_two_children.cache_clear()
-            hist = edits.History(rng, data, allow_outliers=True)
+            init = None
+            if big:
+                keep = n - int(rng.integers(3, 12))
+                sub = gen.random_forest(rng, keep, max_children=[8, 300][h % 2], p_outlier=[0.0, 0.02][h % 2],
+                                        shape=[None, "bushy", "star", "chain"][(h + task["shard"]) % 4], min_clones=258)
+                init = sub
+                part.count("big_histories")
+            hist = edits.History(rng, data, allow_outliers=True, initial_forest=init)
             frozen = []  # (tree, digest) alias guard ring
             shadows = []  # [tree, how, steps_left]
             case = {"seed": task["seed"], "shard": task["shard"], "history": h, "n": n, "D": D, "G": G, "kind": kind}
             try:
-                for s in range(task["steps"]):
+                for s in range(task["steps"] if not big else task.get("big_steps", 20)):
                     before = monitors.digest(hist.tree) if "rebuild" in mons else None
                     d, old, new = hist.step()
                     part.count("evaluations")
